@@ -264,14 +264,26 @@ func decodeStyledParameter(param *openapi3.Parameter, input *RequestValidationIn
 }
 
 func decodeValue(dec valueDecoder, param string, sm *openapi3.SerializationMethod, schema *openapi3.SchemaRef, required bool) (any, bool, error) {
+	return decodeValueOnce(dec, param, sm, schema, required, map[*openapi3.Schema]struct{}{})
+}
+
+// decodeValueOnce is decodeValue with the set of schemas being decoded: allOf, anyOf and oneOf decode
+// their sub-schemas from the same text, so meeting one of them again is a cycle.
+func decodeValueOnce(dec valueDecoder, param string, sm *openapi3.SerializationMethod, schema *openapi3.SchemaRef, required bool, decoding map[*openapi3.Schema]struct{}) (any, bool, error) {
 	var found bool
+
+	if _, ok := decoding[schema.Value]; ok {
+		return nil, found, fmt.Errorf("schema of parameter %q refers to itself through allOf, anyOf or oneOf", param)
+	}
+	decoding[schema.Value] = struct{}{}
+	defer delete(decoding, schema.Value)
 
 	if len(schema.Value.AllOf) > 0 {
 		var value any
 		var err error
 		for _, sr := range schema.Value.AllOf {
 			var f bool
-			value, f, err = decodeValue(dec, param, sm, sr, required)
+			value, f, err = decodeValueOnce(dec, param, sm, sr, required, decoding)
 			found = found || f
 			if value == nil || err != nil {
 				break
@@ -282,7 +294,7 @@ func decodeValue(dec valueDecoder, param string, sm *openapi3.SerializationMetho
 
 	if len(schema.Value.AnyOf) > 0 {
 		for _, sr := range schema.Value.AnyOf {
-			value, f, _ := decodeValue(dec, param, sm, sr, required)
+			value, f, _ := decodeValueOnce(dec, param, sm, sr, required, decoding)
 			found = found || f
 			if value != nil {
 				return value, found, nil
@@ -298,7 +310,7 @@ func decodeValue(dec valueDecoder, param string, sm *openapi3.SerializationMetho
 		isMatched := 0
 		var value any
 		for _, sr := range schema.Value.OneOf {
-			v, f, _ := decodeValue(dec, param, sm, sr, required)
+			v, f, _ := decodeValueOnce(dec, param, sm, sr, required, decoding)
 			found = found || f
 			if v != nil {
 				value = v
